@@ -84,11 +84,16 @@ CLAIMED = {
         technique="Lean 4 round-trip theorem escape/double-quote scanner + correspondence + execution oracle",
         design="7/C08"),
     "C09": dict(
-        text="Theorems (Props/C09.lean) about the call-graph part of the parser model: the merge of an imported graph keeps every own edge and takes every imported edge; the collection "
+        text="SEMANTIC SIDE OF THE REMOVAL (Props/C09Sem.lean, unused_function_removal_is_safe): the program Parse returns is the program it has read (imported files and main "
+             "file, parseRaw) with the unreached function definitions filtered out, and whenever every call of the kept code goes to a kept function (graphCovers, decidable, "
+             "evaluated by the Lean driver on the statements and the call graph of every program the check parses: 300 of 300 in the quick tier, 4242 definitions removed) every "
+             "outcome of the full program in the source semantics Sem2/Src (exit status, printed lines) is the outcome of the reduced program - for all programs, by induction over "
+             "the fuel of the mutually recursive evaluation functions; the semantics is monotone in its fuel and the outcome does not depend on it (outcome_independent_of_fuel). "
+             "Also (Props/C09.lean), about the call-graph part of the parser model: the merge of an imported graph keeps every own edge and takes every imported edge; the collection "
              "of used functions contains everything reachable from top-level code; removal keeps every reachable function definition and drops nothing but function definitions, "
              "order preserved. Linking (aliases, prefixes, visibility) and defined-before-use in the scripts: import-graph oracle.",
-        note=TB + "that every call site records its edge is part of the AST/usedFuncs correspondence, not a theorem.",
-        technique="Lean 4 theorems on merge/reachability/removal of the parser model + import-graph world oracle",
+        note=TB + "that every call site records its edge in the graph is not a theorem: it is the hypothesis graphCovers, evaluated at run time on every parsed program (and part of the AST correspondence).",
+        technique="Lean 4 theorem on the source semantics (removal of uncalled definitions preserves every outcome) + theorems on merge/reachability/removal of the parser model + run-time evaluation of the theorem's hypothesis + import-graph world oracle",
         design="7/C09"),
     "C10": dict(
         text="The property does not hold on the pinned tree in general (known finding reserved-identifiers-not-rejected). Theorems (Props/C10.lean) state what does hold and the exact "
